@@ -403,7 +403,7 @@ func checkC11(c c11Case) (ci caseInfo, err error) {
 		case "ctrl":
 			sys := append([]byte{0, 0, 0, 0}, op.Sys...)[len(op.Sys):][:4]
 			sys = append([]byte(nil), sys...)
-			hdr := []byte{byte(op.N >> 8), byte(op.N), byte(op.A), byte(op.B), 0, byte(1 + op.C%9), sys[0], sys[1], sys[2], sys[3]}
+			hdr := []byte{byte(op.N >> 8), byte(op.N), byte(op.A), byte(op.B), 0, byte(1 + (op.C/6)%9), sys[0], sys[1], sys[2], sys[3]}
 			var m ast.HSMSMessage
 			switch op.C % 6 {
 			case 0:
